@@ -6,22 +6,29 @@ import (
 	"tunnox-core/verif/vkit"
 )
 
-// TestZZLongHalfClosedVerdict must stay the last test of the binary (file name order).
+// TestZZLongHalfClosedVerdict must stay the last test of the binary (file name order): it
+// collects the verdicts of the background cases started by TestAALongHalfClosedStart.
 func TestZZLongHalfClosedVerdict(t *testing.T) {
-	longRun.mu.Lock()
-	started, done, c := longRun.started, longRun.done, longRun.c
-	longRun.mu.Unlock()
-	if !started {
-		t.Skip("not started on this shard")
+	bgJobs.mu.Lock()
+	jobs := bgJobs.jobs
+	bgJobs.mu.Unlock()
+	if len(jobs) == 0 {
+		t.Skip("no background case on this shard")
 	}
-	<-done
-	longRun.mu.Lock()
-	f := longRun.fail
-	longRun.mu.Unlock()
-	if f != nil {
-		vkit.Violation(t, f.key, f.detail, Case{Long: &c})
-		vkit.Case("known:"+f.key, false, "")
-		return
+	for _, j := range jobs {
+		<-j.done
+		bgJobs.mu.Lock()
+		f := j.fail
+		bgJobs.mu.Unlock()
+		if f != nil {
+			vkit.Violation(t, f.key, f.detail, j.c)
+			vkit.Case("known:"+f.key, false, "")
+			continue
+		}
+		if j.c.Long != nil {
+			vkit.Case("tcp:long-lived-half-closed/first-to-close="+j.c.Long.FirstToClose, true, "long/"+j.c.Long.FirstToClose)
+		} else {
+			vkit.Case("limited+tcp:slow(outlasts-the-initial-bucket)/"+j.c.TCP.Steps[0].Op, true, "slowlimit/"+j.c.TCP.Steps[0].Op)
+		}
 	}
-	vkit.Case("tcp:long-lived-half-closed/first-to-close="+c.FirstToClose, true, "long/"+c.FirstToClose)
 }
